@@ -735,7 +735,7 @@ func main() {
 			return map[string]interface{}{"rank_answers_compared_across_insertion_orders": statOrderCmp, "notarized_lists_checked": statLists, "lists_checked_after_update": statUpdChecks}
 		},
 		Fixed: [][]string{
-			{"new 1", "blk 1 0 0 1", "addn 1", "blk 2 0 0 1,2", "upd 2", "nbs", "pbs", "tix 1", "tix 2"}, // update does not replace (known finding)
+			{"new 1", "blk 1 0 0 1", "addn 1", "blk 2 0 0 1,2", "upd 2", "nbs", "pbs", "tix 1", "tix 2"}, // update did not replace before repo commit 1ab8ea2 (a regression is reported as C35:update-does-not-replace)
 			{"new 1", "blk 1 0 0 1", "blk 2 0 0 2,3", "addn 1", "addn 2", "nbs", "tix 1", "tix 2", "best"},
 			{"new 1", "blk 1 4 1 -", "blk 2 5 1 -", "blk 3 0 0 -", "addn 1", "addn 2", "nbs", "addn 3", "nbs", "best", "heaviest", "pbs"},
 			{"new 2", "ranks", "byrank", "gens", "seed 5", "ranks", "cseed 0", "cseed 5", "cseed 6"},
